@@ -43,6 +43,9 @@ def main():
             demo_override = sys.argv[i + 1]
     meta = json.load(open(os.path.join(src, "meta.json")))
     patch = os.path.join(src, "patch.diff")
+    if "--rerun" in sys.argv:
+        # the change was confirmed earlier (src = /verif/seeded/<name>): only run the checks against it again
+        return rerun(src, pid, name, checks, meta, patch)
     wt = f"/tmp/confirm_{name}"
     sh(["git", "-C", REPO, "worktree", "remove", "--force", wt])
     rc, out = sh(["git", "-C", REPO, "worktree", "add", "--detach", wt, "HEAD"])
@@ -89,6 +92,23 @@ def main():
         result["confirmed"] = (rc0 == 0 and rc1 != 0 and rc2 == 0 and result["patch_applies"])
     finally:
         sh(["git", "-C", REPO, "worktree", "remove", "--force", wt])
+    verdicts = run_checks(name, patch, checks)
+    result["checks"] = verdicts
+    store(src, pid, name, meta, patch, result, verdicts)
+
+
+def rerun(src, pid, name, checks, meta, patch):
+    verdicts = run_checks(name, patch, checks)
+    meta["what_i_ran"]["checks"] = verdicts
+    json.dump(meta, open(os.path.join(src, "meta.json"), "w"), indent=1)
+    print(json.dumps({"seed": name, "rerun": True,
+                      "checks": {k: ("CAUGHT+input" if v["with_failing_input"] else "CAUGHT(no input)" if v["caught"] else "missed") for k, v in verdicts.items()}}))
+    for v in verdicts.values():
+        for l in v["lines"]:
+            print("   ", l[:400])
+
+
+def run_checks(name, patch, checks):
     # run the checks against a patched COPY of the repository (a second scratch worktree; VERIF_REPO points the whole
     # machinery at it), so that /repo itself, the committed evidence and concurrently running work are not disturbed
     verdicts = {}
@@ -115,8 +135,10 @@ def main():
         subprocess.run(["python3", "-m", "vlib.factgen"], cwd=VERIF, env=ENV, stdout=subprocess.DEVNULL, stderr=subprocess.DEVNULL)
         if os.path.exists(os.path.join(VERIF, "vlib", "accessgen.py")):
             subprocess.run(["python3", "-m", "vlib.accessgen"], cwd=VERIF, env=ENV, stdout=subprocess.DEVNULL, stderr=subprocess.DEVNULL)
-    result["checks"] = verdicts
-    # store
+    return verdicts
+
+
+def store(src, pid, name, meta, patch, result, verdicts):
     dst = os.path.join(VERIF, "seeded", name)
     os.makedirs(dst, exist_ok=True)
     shutil.copy(patch, os.path.join(dst, "patch.diff"))
